@@ -46,6 +46,7 @@ enum Back {
     Sess(String, Sess),
     Sender(String, Sender),
     SenderAndFut(String, Sender, u64, Option<Fut>),
+    FutOnly(u64, Option<Fut>),
     Receiver(String, Receiver),
     ReceiverAndDelivery(String, Receiver, Option<Dlv>),
     SessAndTxn(String, Sess, String, Option<fe2o3_amqp::transaction::OwnedTransaction>),
@@ -54,6 +55,17 @@ enum Back {
     /// a link the application detached without closing and kept for resumption
     DetachedS(String, fe2o3_amqp::link::sender::DetachedSender),
     DetachedR(String, fe2o3_amqp::link::receiver::DetachedReceiver),
+}
+
+/// A future that forwards at most `left` polls to `inner` and then stays pending without touching it.
+struct PollLimited<F> { inner: std::pin::Pin<Box<F>>, left: usize }
+impl<F: std::future::Future> std::future::Future for PollLimited<F> {
+    type Output = F::Output;
+    fn poll(mut self: std::pin::Pin<&mut Self>, cx: &mut std::task::Context<'_>) -> std::task::Poll<F::Output> {
+        if self.left == 0 { return std::task::Poll::Pending; }
+        self.left -= 1;
+        self.inner.as_mut().poll(cx)
+    }
 }
 struct Call { id: u64, op: String, scope: String, h: JoinHandle<(J, Back)>, cancel: Option<oneshot::Sender<()>> }
 
@@ -349,6 +361,7 @@ impl Exec {
             Back::Sess(n, s) => { self.sessions.insert(n, s); }
             Back::Sender(n, s) => { self.senders.insert(n, s); }
             Back::SenderAndFut(n, s, id, f) => { self.senders.insert(n, s); if let Some(f) = f { self.futs.insert(id, f); } }
+            Back::FutOnly(id, f) => { if let Some(f) = f { self.futs.insert(id, f); } }
             Back::Receiver(n, r) => { self.receivers.insert(n, r); }
             Back::SessAndTxn(sn, s, x, t) => { self.sessions.insert(sn, s); if let Some(t) = t { self.txns.insert(x, t); } }
             Back::TxnAndSender(x, t, ln, l) => { self.txns.insert(x, t); self.senders.insert(ln, l); }
@@ -819,6 +832,42 @@ impl Exec {
                     }
                 });
                 self.start(if batch { "send_batchable" } else { "send" }, &format!("l:{l}"), json!({"m": m, "len": len, "settled": settled.map(|b| if b { "t" } else { "f" }).unwrap_or("none"), "shape": shape}), Some(ctx), h);
+            }
+            // A batchable send that fills the link-to-session channel, followed in the same task (no scheduler turn in between) by a
+            // send that is polled at most `polls` times and then left alone until it is cancelled: "dropped after its k-th Pending".
+            // Whatever the engines do in between (flows, dispositions) happens while that future is frozen at its await.
+            "ASendPark" => {
+                let l = e["l"].as_str().unwrap().to_string();
+                let Some(mut snd) = self.senders.remove(&l) else { return self.skip(e, "no sender handle"); };
+                let (m1, len1) = (e["m1"].as_u64().unwrap() as u32, e["len1"].as_u64().unwrap() as usize);
+                let (m, len) = (e["m"].as_u64().unwrap() as u32, e["len"].as_u64().unwrap() as usize);
+                let polls = e.get("polls").and_then(|x| x.as_u64()).unwrap_or(1) as usize;
+                for (mm, ll) in [(m1, len1), (m, len)] {
+                    self.msg_shapes.insert(mm, (ll, "data".to_string()));
+                    self.sent_queue.entry(snd.name().to_string()).or_default().push((mm, ll));
+                }
+                let s1 = Sendable::builder().message(build_message(m1, len1, "data")).build();
+                let s2 = Sendable::builder().message(build_message(m, len, "data")).build();
+                let (r1tx, r1rx) = oneshot::channel::<(J, Back)>();
+                let (ctx, crx) = oneshot::channel::<()>();
+                let id1 = self.next_call;
+                let ln = l.clone();
+                let h1 = tokio::spawn(async move { r1rx.await.unwrap_or((json!({"ok": false, "class": "Cancelled", "cond": "", "dbg": ""}), Back::None)) });
+                let h2 = tokio::spawn(async move {
+                    let r1 = snd.send_batchable(s1).await;
+                    let failed = r1.is_err();
+                    let _ = r1tx.send(match r1 { Ok(f) => (json!({"ok": true, "class": "", "cond": "", "dbg": "", "outcome": "pending"}), Back::FutOnly(id1, Some(f))), Err(e) => (err_json(&e), Back::FutOnly(id1, None)) });
+                    if failed { return (json!({"ok": false, "class": "Cancelled", "cond": "", "dbg": "first send failed"}), Back::Sender(ln, snd)); }
+                    let limited = PollLimited { inner: Box::pin(snd.send(s2)), left: polls };
+                    let out = tokio::select! {
+                        biased;
+                        _ = crx => None,
+                        r = limited => Some(match r { Ok(o) => json!({"ok": true, "class": "", "cond": "", "dbg": "", "outcome": class_of(&format!("{o:?}")).to_lowercase()}), Err(e) => err_json(&e) }),
+                    };
+                    (out.unwrap_or(json!({"ok": false, "class": "Cancelled", "cond": "", "dbg": ""})), Back::Sender(ln, snd))
+                });
+                self.start("send_batchable", &format!("l:{l}"), json!({"m": m1, "len": len1, "settled": "none", "shape": "data"}), None, h1);
+                self.start("send", &format!("l:{l}"), json!({"m": m, "len": len, "settled": "none", "shape": "data"}), Some(ctx), h2);
             }
             "ATxnDeclare" => {
                 use fe2o3_amqp::transaction::OwnedTransaction;
